@@ -206,7 +206,12 @@ fn search_case(report: &mut Report, seed: u64, idx: u64) {
     let start: Vec<f64> = mat_vec(&f, &y0).iter().zip(&c).map(|(a, b)| a + b).collect();
     let momentum = rng.normal_vec(d);
     let target_accept = rng.range(0.4, 0.95);
-    let initial_step = rng.log_range(1e-3, 10.0);
+    // mostly ordinary starting values, sometimes far outside the range in which the search stops on its own
+    let initial_step = match idx % 8 {
+        6 => rng.log_range(1e-14, 1e-8),
+        7 => rng.log_range(1e3, 1e7),
+        _ => rng.log_range(1e-3, 10.0),
+    };
     let method = if rng.bool(0.5) { StepSizeAdaptMethod::DualAverage } else { StepSizeAdaptMethod::Adam };
     let settings = StepSizeSettings {
         target_accept,
@@ -247,8 +252,8 @@ fn search_case(report: &mut Report, seed: u64, idx: u64) {
         let mut hsh = Fnv::new();
         hsh.str("search").str(kname).u64(doubling as u64).u64(((eps / initial_step).log2().abs().round() as u64).min(12));
         report.nontrivial(hsh.finish());
-        // documented escapes
-        if eps > 1e5 || eps < 1e-10 {
+        // documented escapes: doubling gives up above 1e5, halving below 1e-10
+        if (doubling && eps > 1e5) || (!doubling && eps < 1e-10) {
             report.count("search_escape_range", 1);
             return Ok(());
         }
@@ -408,7 +413,7 @@ impl RefAdam {
 /// draw must be the Adam update of the previous one with the asymmetric acceptance statistic (before the final
 /// window: either statistic, since the switch to the symmetric one may come earlier) or the symmetric one (final
 /// window), and it must move up exactly when the smoothed acceptance exceeds the target.
-fn adam_chain_case(report: &mut Report, seed: u64, idx: u64) {
+pub fn adam_chain_case(report: &mut Report, seed: u64, idx: u64, prop: &str) {
     report.eval();
     let mut rng = HRng::new(seed).fork(0xADAC4A1 + idx);
     let preset = if idx % 2 == 0 { Preset::DiagNuts } else { Preset::LowRankNuts };
@@ -473,7 +478,7 @@ fn adam_chain_case(report: &mut Report, seed: u64, idx: u64) {
             return;
         };
         if !(bar.is_finite() && bar > 0.0) {
-            report.violation("C07:adam_chain:step_not_positive_finite", format!("draw {dd}: {bar:e}"), replay);
+            report.violation(format!("{prop}:adam_chain:step_not_positive_finite"), format!("draw {dd}: {bar:e}"), replay);
             return;
         }
         let ok = |r: &RefAdam| (bar.ln() - r.log_step).abs() <= 1e-9 * (1.0 + r.log_step.abs());
@@ -516,7 +521,7 @@ fn adam_chain_case(report: &mut Report, seed: u64, idx: u64) {
                 "step_size_not_reproduced"
             };
             report.violation(
-                format!("C07:adam_chain:{what}"),
+                format!("{prop}:adam_chain:{what}"),
                 format!(
                     "{} draw {dd} (final window from {f_win}, num_tune {nt}): acceptance {a} / symmetric {a_sym}, target {target_accept}; step {:e} -> {bar:e}; the Adam update gives {:e} (asymmetric) / {:e} (symmetric) [{} hypotheses]",
                     preset.name(), r.log_step.exp(), c_asym.log_step.exp(), c_sym.log_step.exp(), hyp.len()
@@ -558,7 +563,7 @@ pub fn run(args: &Args, report: &mut Report) {
             "dual" => open_loop_dual(report, s, idx),
             "adam" => open_loop_adam(report, s, idx),
             "search" => search_case(report, s, idx),
-            "adam_chain" => adam_chain_case(report, s, idx),
+            "adam_chain" => adam_chain_case(report, s, idx, "C07"),
             _ => {
                 let r = closed_loop_case(report, s, idx, false);
                 eprintln!("{r:?}");
@@ -570,7 +575,7 @@ pub fn run(args: &Args, report: &mut Report) {
     let n_adam = report.size(1500, 40_000);
     let n_search = report.size(1500, 40_000);
     let n_adam_chain = report.size(240, 6000);
-    crate::report::par_run(report, n_adam_chain, |i, rep| adam_chain_case(rep, seed, i));
+    crate::report::par_run(report, n_adam_chain, |i, rep| adam_chain_case(rep, seed, i, "C07"));
     crate::report::par_run(report, n_dual + n_adam + n_search, |i, rep| {
         if i < n_dual {
             open_loop_dual(rep, seed, i)
